@@ -177,6 +177,10 @@ func TestBalance(t *testing.T) { Sim(t, balBody) }
 func (e *balEngine) run() {
 	t := e.r.T
 	ns := []int{1, 3, 4, 7}
+	if !Thorough() && Chance(t, "rareN", 12) {
+		// sizes with 3k+2 members and the larger even one, now and then
+		ns = []int{2, 5, 6}
+	}
 	if Thorough() {
 		ns = []int{1, 3, 4, 7, 2, 5, 6}
 	}
